@@ -32,6 +32,7 @@ RULE = (
     "Non-trivial = a crash after >=2 writes, or an overwrite with a different size; counted per (configuration, k)."
 )
 RULE += " " + ("Files are named .h5 / .hdf5 / .HDF5 and every file left by a fault is also read back through the sampler's own load_checkpoint_from_file (the resume_from='<file>' route).")
+RULE += " " + ("Half of the continued runs receive the cadence through resume_from_file(resume_kwargs={'checkpoint_every': c}) instead of an auto_checkpoint context.")
 ASSUMPTIONS = [
     "faults are exceptions raised at user-callable boundaries (as the property states); torn HDF5 writes are out of scope",
     "the write log is obtained by wrapping aspire.utils.dump_state as imported by aspire.samplers.base, inside the check process only",
